@@ -113,22 +113,28 @@ SiteClauses == {"pointG_fixes_site", "pointG_is_stabiliser", "pointG_ops_distinc
 SigAt(c, S0, p) == IF p[2] \in DOMAIN c.real[p[1]].sites THEN ClassSig(StabRots(c, S0, p)) ELSE {}
 
 \* the definitional group of the current case is computed ONCE, in its own step, and held in a variable
-VARIABLES phase, grp
-Init == k = 0 /\ phase = "load" /\ grp = {}
+\* (TLC re-evaluates operator applications and LET bodies at every use, so the group and the clause results are
+\*  each computed once by an action of their own and then read back as plain values.)
+VARIABLES phase, grp, res
+Init == k = 0 /\ phase = "load" /\ grp = {} /\ res = <<>>
 Load == /\ phase = "load" /\ k < Len(Cases)
-        /\ k' = k + 1 /\ grp' = OpsRT(Cases[k'].w, 2) /\ phase' = "check"
-Check == /\ phase = "check"
-         /\ LET c == Cases[k] S0 == grp cl == Offenders(c, S0) IN
-             /\ \A j \in DOMAIN cl : cl[j][2] = {} \/
-                   LET p == CHOOSE p \in cl[j][2] : TRUE IN
-                   /\ PrintT(<<"FAIL", k, cl[j][1]>>)
-                   /\ PrintT(<<"INFO", k, "where_" \o cl[j][1], p>>)
-                   /\ PrintT(<<"INFO", k, "sig_" \o cl[j][1], IF cl[j][1] \in SiteClauses THEN SigAt(c, S0, p) ELSE {}>>)
-             /\ PrintT(<<"INFO", k, "order", Cardinality(S0)>>)
-             /\ PrintT(<<"INFO", k, "maxstab", MaxStab(c, S0)>>)
-             /\ PrintT(<<"INFO", k, "gap", Gap(c, S0)>>)
-             /\ PrintT(<<"INFO", k, "model_sane", ModelSane(c, S0)>>)
-         /\ (k = Len(Cases) => PrintT(<<"DONE", k>>))
-         /\ phase' = "load" /\ grp' = {} /\ UNCHANGED k
-Next == Load \/ Check
+        /\ k' = k + 1 /\ grp' = OpsRT(Cases[k'].w, 2) /\ phase' = "eval" /\ res' = <<>>
+Eval == /\ phase = "eval"
+        /\ res' = Offenders(Cases[k], grp)
+        /\ phase' = "report" /\ UNCHANGED <<k, grp>>
+Report ==
+  /\ phase = "report"
+  /\ \A j \in DOMAIN res :       \* IF, not \/ : at action level TLC explores both sides of a disjunction
+        IF res[j][2] = {} THEN TRUE
+        ELSE LET where == CHOOSE x \in res[j][2] : TRUE IN
+             /\ PrintT(<<"FAIL", k, res[j][1]>>)
+             /\ PrintT(<<"INFO", k, "where_" \o res[j][1], where>>)
+             /\ PrintT(<<"INFO", k, "sig_" \o res[j][1], IF res[j][1] \in SiteClauses THEN SigAt(Cases[k], grp, where) ELSE {}>>)
+  /\ PrintT(<<"INFO", k, "order", Cardinality(grp)>>)
+  /\ PrintT(<<"INFO", k, "maxstab", MaxStab(Cases[k], grp)>>)
+  /\ PrintT(<<"INFO", k, "gap", Gap(Cases[k], grp)>>)
+  /\ PrintT(<<"INFO", k, "model_sane", ModelSane(Cases[k], grp)>>)
+  /\ (IF k = Len(Cases) THEN PrintT(<<"DONE", k>>) ELSE TRUE)
+  /\ phase' = "load" /\ grp' = {} /\ res' = <<>> /\ UNCHANGED k
+Next == Load \/ Eval \/ Report
 =============================================================================
